@@ -15,6 +15,8 @@ R5.12 each branch of the multi-media-type decode chain accepts exactly its decla
 R5.13 the union decoder reads the discriminator from the type as given and keeps Annotated members whole                          [= R14.11]
 R5.14 the class name synthesized for an unnamed inline response body depends on the response (status), not on the operation alone
 R5.15 the resolver's self-import decision compares the package of the current file (else `cast("Pets", response.json())`: raw dicts)   [= R13.9]
+R5.16 the decoder emitted for a streamed JSON body follows the response's `stream_format` (ndjson -> iter_ndjson, not the SSE decoder)
+R5.17 the placeholder the loader stores for a media type without schema counts as "no schema" in the strategy resolver (bytes / str inferred from the media type)
 R5.11 the streaming body yields raw bytes exactly when the strategy's return type (the annotated item type) is bytes
 R5.9  the handler's "is the named schema a type alias?" tests exclude what ModelVisitor's classification excludes (enums are classes)
 R5.8  every declared media type of a response passes the streaming classification in the loader
@@ -41,6 +43,7 @@ SYMBOL_IMPORTS = {
     "structure_from_dict(": ("add_import", "structure_from_dict"),
     "cast(": ("add_import", "cast"),
     "iter_bytes(": ("add_import", "iter_bytes"),
+    "iter_ndjson(": ("add_import", "iter_ndjson"),
     "iter_sse_events_text(": ("add_import", "iter_sse_events_text"),
     "json.loads(": ("add_plain_import", "json"),
     "HTTPError(": ("add_import", "HTTPError"),
@@ -217,6 +220,8 @@ def run(repo: Repo, rep: Report, tier: str) -> None:
 
     _rmg513(repo, rep, "R5.13")
     rule_one_name_per_response(repo, rep, "R5.14")
+    rule_stream_decoder_follows_format(repo, rep, "R5.16")
+    rule_schemaless_media_type(repo, rep, "R5.17")
     # R5.15: a tag module is never taken for a model module of the same name (the body would be handed back as raw dicts through `cast`)  [= R13.9]
     from rules.c13 import rule_self_import_compares_the_package
 
@@ -776,3 +781,80 @@ def rule_one_name_per_response(repo: Repo, rep, rule: str = "R5.14") -> None:
                       "share it - the registry keeps the last body and both statuses are decoded into that model (a conforming 200 body fails or loses its values)", fn.loc(st))
     else:
         rep.ok(rule, sub, f"{n} registration(s): the synthesized name depends on the response it belongs to", fn.loc())
+
+
+# ------------------------------------------------------------------------------------------------ R5.16 the stream decoder follows the declared stream format
+def rule_stream_decoder_follows_format(repo: Repo, rep, rule: str = "R5.16") -> None:
+    """The loader records for every streamed response which format it has (`stream_format`: event-stream, ndjson, ...).  The handler must
+    choose the runtime decoder from it: a newline-delimited JSON stream handed to the SSE decoder has no `data:` field in any line, so the
+    generated method completes normally and yields nothing.  Decided: the function that emits the streaming body reads `stream_format`, and
+    the `iter_ndjson` decoder is emitted on the side of a test that compares it with `ndjson`."""
+    hmod = repo.module(HANDLER)
+    fn0 = next((f for q, f in hmod.functions.items() if q.endswith("._write_strategy_based_return")), None)
+    if fn0 is None:
+        raise AnalysisError(f"{rule}: anchor vanished: _write_strategy_based_return")
+
+    def body(fn, r):
+        cfg = CFG(fn.node)
+        dom = cfg.dominators()
+        L = Locals(fn.node)
+        reads = [x for x in ast.walk(fn.node) if isinstance(x, ast.Attribute) and x.attr == "stream_format"]
+        nd = [n for n in cfg.nodes if n.kind == "stmt" and n.ast is not None and not n.copy and any(
+            isinstance(c.func, ast.Attribute) and c.func.attr == "write_line" and c.args and "iter_ndjson(" in norm(c.args[0]) for c in calls_in(n.ast))]
+        sse = [n for n in cfg.nodes if n.kind == "stmt" and n.ast is not None and not n.copy and any(
+            isinstance(c.func, ast.Attribute) and c.func.attr == "write_line" and c.args and "iter_sse" in norm(c.args[0]) for c in calls_in(n.ast))]
+        if not sse:
+            raise AnalysisError(f"{rule}: the emit of the SSE decoder was not found in _write_strategy_based_return (anchor)")
+        sub = f"{hmod.relpath}:_write_strategy_based_return decoder of a streamed JSON body"
+        guarded = False
+        for n in nd:
+            for g, pol in guards(cfg, n.id, dom):
+                if g.kind == "test" and pol is True:
+                    gi = L.inline(g.ast, stop=tuple(L.params))
+                    if any(isinstance(x, ast.Attribute) and x.attr == "stream_format" for x in ast.walk(gi)) and any(isinstance(x, ast.Constant) and x.value == "ndjson" for x in ast.walk(gi)):
+                        guarded = True
+        if reads and guarded:
+            r.ok(rule, sub, "`stream_format == ndjson` selects iter_ndjson; the SSE decoder is the remaining case", fn.loc(nd[0].ast))
+        else:
+            r.violation(rule, sub, f"{fn0.fq}|stream-format-not-consulted",
+                        "the format the loader recorded for the response (`stream_format`) is not consulted: every non-bytes stream is decoded with the SSE decoder - an "
+                        "`application/x-ndjson` body has no `data:` field in any line, the generated method completes normally and yields nothing", fn.loc(sse[0].ast))
+
+    with_flatten_fallback(rep, fn0, body)
+
+
+# ------------------------------------------------------------------------------------------------ R5.17 a media type without schema is "no schema"
+def rule_schemaless_media_type(repo: Repo, rep, rule: str = "R5.17") -> None:
+    """`content: {image/png: {}}` / `text/plain: {}` declare a body without describing it.  The loader stores an empty placeholder schema for
+    such a media type (`IRSchema(name=None, _from_unresolved_ref=True)`, an object - always truthy).  The strategy resolver infers `bytes` /
+    `str` from the media type only `if not response_schema`; unless the placeholder is recognised first, that branch is dead for these
+    responses, the type falls through to `Any` and the handler emits `response.json()` for a PNG / PDF / plain-text body."""
+    pr = repo.func("core.loader.responses.parser:parse_response")
+    places = [c for c in calls_in(pr.node) if dotted(c.func) == "IRSchema" and any(k.arg == "_from_unresolved_ref" and isinstance(k.value, ast.Constant) and k.value.value is True for k in c.keywords)]
+    rs = repo.func("types.strategies.response_strategy:ResponseStrategyResolver.resolve")
+    L = Locals(rs.node)
+    gets = [st for st in own_nodes(rs.node) if isinstance(st, ast.Assign) and isinstance(st.value, ast.Call) and isinstance(st.value.func, ast.Attribute) and st.value.func.attr == "_get_response_schema"]
+    if not gets or not isinstance(gets[0].targets[0], ast.Name):
+        raise AnalysisError(f"{rule}: `<schema> = self._get_response_schema(...)` was not found in ResponseStrategyResolver.resolve (anchor)")
+    sv = gets[0].targets[0].id
+    sub = f"{rs.module.relpath}:ResponseStrategyResolver.resolve schema-less media type"
+    if not places:
+        rep.ok(rule, sub, "the loader stores no placeholder schema for a schema-less media type", rs.loc(gets[0]))
+        return
+    cls = rs.module.classes.get("ResponseStrategyResolver")
+    getter = cls.methods.get("_get_response_schema") if cls else None
+    in_getter = getter is not None and any(isinstance(x, ast.Attribute) and x.attr == "_from_unresolved_ref" or (isinstance(x, ast.Constant) and x.value == "_from_unresolved_ref") for x in ast.walk(getter.node))
+    reset = [st for st in own_nodes(rs.node) if isinstance(st, ast.Assign) and any(isinstance(t, ast.Name) and t.id == sv for t in st.targets) and isinstance(st.value, ast.Constant) and st.value.value is None]
+    guarded = False
+    for st in reset:
+        p = parent(st)
+        while p is not None and not isinstance(p, ast.If):
+            p = parent(p)
+        if isinstance(p, ast.If) and any((isinstance(x, ast.Constant) and x.value == "_from_unresolved_ref") or (isinstance(x, ast.Attribute) and x.attr == "_from_unresolved_ref") for x in ast.walk(p.test)):
+            guarded = True
+    if in_getter or guarded:
+        rep.ok(rule, sub, "the loader's empty placeholder is recognised and treated as 'no schema' before the media type is consulted", rs.loc(gets[0]))
+    else:
+        rep.violation(rule, sub, f"{rs.fq}|placeholder-schema-is-truthy",
+                      f"`{sv}` is the loader's placeholder object for a media type without schema, so `if not {sv}` never holds: the inference `image/* -> bytes`, `text/* -> str` is skipped, "
+                      "the return type becomes Any and the handler JSON-decodes a binary / text body (UnicodeDecodeError, JSONDecodeError, or the text `1.10` read as the number 1.1)", rs.loc(gets[0]))
